@@ -42,26 +42,37 @@ Record mon := mkMon {
   m_dl_hit : list nat;
   m_cut : list nat;                                      (* cut off at/after a deadline *)
   m_quiet : list (nat * quiet);
+  m_gate : list (str * gstate);                          (* service name -> last gate state set by a command *)
+  m_open : list (nat * nat);                             (* goroutine -> target of its open Drain call *)
   m_fail : list (nat * N * nat * bool)                   (* index, code, request/target, known *)
 }.
 
-Definition mon0 : mon := mkMon [] [] [] [] [] [] [] [] [] [] [] [] [] [] [].
+Definition mon0 : mon := mkMon [] [] [] [] [] [] [] [] [] [] [] [] [] [] [] [] [].
 
 (** setters (one per field we update) *)
 Definition set_fail (m : mon) f := mkMon (m_lb_targets m) (m_target_lb m) (m_slots m) (m_names m) (m_installed m) (m_cmds m)
-  (m_inflight m) (m_routed m) (m_gated m) (m_drain_dl m) (m_snap m) (m_dl_hit m) (m_cut m) (m_quiet m) f.
+  (m_inflight m) (m_routed m) (m_gated m) (m_drain_dl m) (m_snap m) (m_dl_hit m) (m_cut m) (m_quiet m) (m_gate m) (m_open m) f.
 Definition set_quiet (m : mon) q := mkMon (m_lb_targets m) (m_target_lb m) (m_slots m) (m_names m) (m_installed m) (m_cmds m)
-  (m_inflight m) (m_routed m) (m_gated m) (m_drain_dl m) (m_snap m) (m_dl_hit m) (m_cut m) q (m_fail m).
+  (m_inflight m) (m_routed m) (m_gated m) (m_drain_dl m) (m_snap m) (m_dl_hit m) (m_cut m) q (m_gate m) (m_open m) (m_fail m).
 Definition set_cmds (m : mon) c := mkMon (m_lb_targets m) (m_target_lb m) (m_slots m) (m_names m) (m_installed m) c
-  (m_inflight m) (m_routed m) (m_gated m) (m_drain_dl m) (m_snap m) (m_dl_hit m) (m_cut m) (m_quiet m) (m_fail m).
+  (m_inflight m) (m_routed m) (m_gated m) (m_drain_dl m) (m_snap m) (m_dl_hit m) (m_cut m) (m_quiet m) (m_gate m) (m_open m) (m_fail m).
 Definition set_inflight (m : mon) x := mkMon (m_lb_targets m) (m_target_lb m) (m_slots m) (m_names m) (m_installed m) (m_cmds m)
-  x (m_routed m) (m_gated m) (m_drain_dl m) (m_snap m) (m_dl_hit m) (m_cut m) (m_quiet m) (m_fail m).
+  x (m_routed m) (m_gated m) (m_drain_dl m) (m_snap m) (m_dl_hit m) (m_cut m) (m_quiet m) (m_gate m) (m_open m) (m_fail m).
 Definition set_slots (m : mon) x := mkMon (m_lb_targets m) (m_target_lb m) x (m_names m) (m_installed m) (m_cmds m)
-  (m_inflight m) (m_routed m) (m_gated m) (m_drain_dl m) (m_snap m) (m_dl_hit m) (m_cut m) (m_quiet m) (m_fail m).
+  (m_inflight m) (m_routed m) (m_gated m) (m_drain_dl m) (m_snap m) (m_dl_hit m) (m_cut m) (m_quiet m) (m_gate m) (m_open m) (m_fail m).
 Definition set_installed (m : mon) x := mkMon (m_lb_targets m) (m_target_lb m) (m_slots m) (m_names m) x (m_cmds m)
-  (m_inflight m) (m_routed m) (m_gated m) (m_drain_dl m) (m_snap m) (m_dl_hit m) (m_cut m) (m_quiet m) (m_fail m).
+  (m_inflight m) (m_routed m) (m_gated m) (m_drain_dl m) (m_snap m) (m_dl_hit m) (m_cut m) (m_quiet m) (m_gate m) (m_open m) (m_fail m).
 Definition set_drains (m : mon) dl sn hit cut := mkMon (m_lb_targets m) (m_target_lb m) (m_slots m) (m_names m) (m_installed m) (m_cmds m)
-  (m_inflight m) (m_routed m) (m_gated m) dl sn hit cut (m_quiet m) (m_fail m).
+  (m_inflight m) (m_routed m) (m_gated m) dl sn hit cut (m_quiet m) (m_gate m) (m_open m) (m_fail m).
+
+Definition set_gate (m : mon) g := mkMon (m_lb_targets m) (m_target_lb m) (m_slots m) (m_names m) (m_installed m) (m_cmds m)
+  (m_inflight m) (m_routed m) (m_gated m) (m_drain_dl m) (m_snap m) (m_dl_hit m) (m_cut m) (m_quiet m) g (m_open m) (m_fail m).
+
+Definition set_open (m : mon) o := mkMon (m_lb_targets m) (m_target_lb m) (m_slots m) (m_names m) (m_installed m) (m_cmds m)
+  (m_inflight m) (m_routed m) (m_gated m) (m_drain_dl m) (m_snap m) (m_dl_hit m) (m_cut m) (m_quiet m) (m_gate m) o (m_fail m).
+
+Definition gate_of (m : mon) (name : str) : gstate :=
+  match find (fun p => str_eqb (fst p) name) (m_gate m) with Some (_, g) => g | None => GRunning end.
 
 Definition targets_of_lb (m : mon) (lb : option nat) : list nat :=
   match lb with Some l => match nget (m_lb_targets m) l with Some ts => ts | None => [] end | None => [] end.
@@ -80,10 +91,10 @@ Definition installed_for (m : mon) (name : str) : option nat :=
 Definition mon_step (m : mon) (i : nat) (e : event) : mon :=
   match e_k e with
   | KSvcName s n => mkMon (m_lb_targets m) (m_target_lb m) (m_slots m) (nset (m_names m) s n) (m_installed m) (m_cmds m)
-      (m_inflight m) (m_routed m) (m_gated m) (m_drain_dl m) (m_snap m) (m_dl_hit m) (m_cut m) (m_quiet m) (m_fail m)
+      (m_inflight m) (m_routed m) (m_gated m) (m_drain_dl m) (m_snap m) (m_dl_hit m) (m_cut m) (m_quiet m) (m_gate m) (m_open m) (m_fail m)
   | KLbNew lb ts => mkMon (nset (m_lb_targets m) lb ts) (fold_left (fun acc t => nset acc t lb) ts (m_target_lb m))
       (m_slots m) (m_names m) (m_installed m) (m_cmds m)
-      (m_inflight m) (m_routed m) (m_gated m) (m_drain_dl m) (m_snap m) (m_dl_hit m) (m_cut m) (m_quiet m) (m_fail m)
+      (m_inflight m) (m_routed m) (m_gated m) (m_drain_dl m) (m_snap m) (m_dl_hit m) (m_cut m) (m_quiet m) (m_gate m) (m_open m) (m_fail m)
   | KIssue c k name => set_cmds m (nset (m_cmds m) c (mkC k name None None None))
   | KSvcCopy old new =>
     set_slots m (nset (m_slots m) new (match nget (m_slots m) old with Some x => x | None => (None, None) end))
@@ -113,7 +124,8 @@ Definition mon_step (m : mon) (i : nat) (e : event) : mon :=
     match e_by e with
     | ACmd c =>
       let r := cmd_get m c in
-      let m1 := set_cmds m (nset (m_cmds m) c (mkC (c_kind r) (c_name r) (c_replaced r) (c_install_idx r) (Some i))) in
+      let m0 := set_gate m ((c_name r, st) :: filter (fun p => negb (str_eqb (fst p) (c_name r))) (m_gate m)) in
+      let m1 := set_cmds m0 (nset (m_cmds m0) c (mkC (c_kind r) (c_name r) (c_replaced r) (c_install_idx r) (Some i))) in
       match st with
       | GRunning =>        (* resume: the service's targets may serve again *)
         set_quiet m1 (filter (fun p => match q_until_resume (snd p) with
@@ -123,9 +135,9 @@ Definition mon_step (m : mon) (i : nat) (e : event) : mon :=
     | _ => m
     end
   | KRouted r _ => mkMon (m_lb_targets m) (m_target_lb m) (m_slots m) (m_names m) (m_installed m) (m_cmds m)
-      (m_inflight m) (nset (m_routed m) r i) (m_gated m) (m_drain_dl m) (m_snap m) (m_dl_hit m) (m_cut m) (m_quiet m) (m_fail m)
+      (m_inflight m) (nset (m_routed m) r i) (m_gated m) (m_drain_dl m) (m_snap m) (m_dl_hit m) (m_cut m) (m_quiet m) (m_gate m) (m_open m) (m_fail m)
   | KGateResult r _ _ => mkMon (m_lb_targets m) (m_target_lb m) (m_slots m) (m_names m) (m_installed m) (m_cmds m)
-      (m_inflight m) (m_routed m) (nset (m_gated m) r i) (m_drain_dl m) (m_snap m) (m_dl_hit m) (m_cut m) (m_quiet m) (m_fail m)
+      (m_inflight m) (m_routed m) (nset (m_gated m) r i) (m_drain_dl m) (m_snap m) (m_dl_hit m) (m_cut m) (m_quiet m) (m_gate m) (m_open m) (m_fail m)
   | KClaim t r =>
     let m1 := set_inflight m (nset (m_inflight m) t (r :: inflight_of m t)) in
     match nget (m_quiet m) t with
@@ -143,8 +155,16 @@ Definition mon_step (m : mon) (i : nat) (e : event) : mon :=
   | KDrainBegin t orig timeout =>
     match orig with
     | TDraining => m
-    | _ => set_drains m (nset (m_drain_dl m) (gid (e_by e)) (e_t e + timeout)) (nset (m_snap m) (gid (e_by e)) [])
-                      (nremove (gid (e_by e)) (m_dl_hit m)) (m_cut m)
+    | _ => set_open (set_drains m (nset (m_drain_dl m) (gid (e_by e)) (e_t e + timeout)) (nset (m_snap m) (gid (e_by e)) [])
+                      (nremove (gid (e_by e)) (m_dl_hit m)) (m_cut m))
+                    (nset (m_open m) (gid (e_by e)) t)
+    end
+  | KStateSet t _ new =>
+    (* the restore that ends this goroutine's Drain call *)
+    match new, nget (m_open m) (gid (e_by e)) with
+    | TDraining, _ => m
+    | _, Some t' => if Nat.eqb t t' then set_open m (filter (fun p => negb (Nat.eqb (fst p) (gid (e_by e)))) (m_open m)) else m
+    | _, None => m
     end
   | KDrainSnapshot _ rs => set_drains m (m_drain_dl m) (nset (m_snap m) (gid (e_by e)) (map fst rs)) (m_dl_hit m) (m_cut m)
   | KDrainDeadline _ =>
@@ -189,8 +209,11 @@ Definition mon_step (m : mon) (i : nat) (e : event) : mon :=
       let stale_before := match c_kind rc with
                           | CkDeploy | CkRolloutDeploy => match c_install_idx rc with Some x => x | None => i end
                           | _ => match c_gate_idx rc with Some x => x | None => i end end in
+      (* a target another (overlapping) command is still draining was not drained by this one: its Drain
+         call returned at once (outside the property's quantifier) *)
+      let mine := filter (fun t => negb (existsb (fun p => Nat.eqb (snd p) t) (m_open m))) drained in
       let bad := flat_map (fun t => map (fun r => (t, r))
-                     (filter (fun r => negb (nmem r (m_cut m))) (inflight_of m t))) drained in
+                     (filter (fun r => negb (nmem r (m_cut m))) (inflight_of m t))) mine in
       let fails := map (fun tr =>
                      let r := snd tr in
                      let stamp := match c_kind rc with
@@ -200,7 +223,11 @@ Definition mon_step (m : mon) (i : nat) (e : event) : mon :=
                         the recorded finding if it was inside the proxy before the switch *)
                      (i, 1, r, match stamp with Some x => Nat.ltb x stale_before | None => false end)) bad in
       let until := match c_kind rc with CkPause | CkStop => Some (c_name rc) | _ => None end in
-      let q := fold_left (fun acc t => nset acc t (mkQ i stale_before until)) drained (m_quiet m) in
+      (* a pause/stop overtaken by a resume (overlapping commands) leaves nothing quiet *)
+      let resumed := match c_kind rc, gate_of m (c_name rc) with
+                     | (CkPause | CkStop), GRunning => true | _, _ => false end in
+      let q := if resumed then m_quiet m
+               else fold_left (fun acc t => nset acc t (mkQ i stale_before until)) mine (m_quiet m) in
       set_fail (set_quiet m q) (rev fails ++ m_fail m)
     | _ => m
     end
